@@ -87,3 +87,12 @@ CLAIMED["C07"] = (
  "nor independence from split points beyond these structural facts.",
  COMMON_NOTE,
  "DESIGN.md section 5 C07")
+
+CLAIMED["C16"] = (
+ "ownership/who-may-call on the pending queue and the codec connection, path enumeration of prepareWrite, value identity in MaskPayload, additive-leaf decomposition of the trim/resize bounds, table agreement, dominance of the size check",
+ "Static necessary-condition analysis. Decides that frames are queued only by prepareWrite and (for clients) only after MaskPayload, that MaskPayload sets the bit first and uses one key for "
+ "f.Mask() and f.Payload(), that the codec connection is fed only from the queue by Flush/AsyncFlush, the shortest-length-encoding table, that WriteTo trims to payloadOffset()+PayloadLength(), "
+ "that SetPayload sets the length before the offset and resizes to offset+len(b), that pooled frames are reset and clients reserve the mask, that oversized messages are refused before "
+ "any frame is acquired or queued, and the reserve/commit/consume discipline of Encode. Does not decide unmask(wire)==caller bytes as values nor partial transport writes.",
+ COMMON_NOTE,
+ "DESIGN.md section 5 C16")
